@@ -563,12 +563,26 @@ func cmdRun(prop string, args []string) int {
 			}
 			w := &worker{id: id, bin: wbin, env: env, scratch: filepath.Join(scratch, fmt.Sprintf("w%d", id))}
 			os.MkdirAll(w.scratch, 0755)
+			if meta.NonRootFraction > 0 && id >= nw-int(float64(nw)*meta.NonRootFraction+0.999) && wbin == bin {
+				// unprivileged worker: runs as nobody in a world-writable scratch directory
+				os.Chmod(scratch, 0755)
+				os.Chmod(filepath.Dir(scratch), 0755)
+				os.Chmod(w.scratch, 0777)
+				w.env = append(w.env, "VERIF_SETUID=65534", "HOME="+w.scratch)
+			}
 			defer w.stop()
+			special := len(w.env) > len(meta.Env) // race / unprivileged worker
 			for {
 				mu.Lock()
 				if stop || next >= tc.Runs || time.Now().After(deadline) {
 					mu.Unlock()
 					return
+				}
+				if special && next < len(corpus) {
+					// corpus scenarios are replayed by the plain root workers
+					mu.Unlock()
+					time.Sleep(20 * time.Millisecond)
+					continue
 				}
 				idx := next
 				next++
